@@ -220,7 +220,7 @@ def file_leg(ctx):
     # the real binary
     cli = core.build_cli()
     for fn in progs:
-        p = subprocess.run([cli, os.path.join(d, fn)], stdout=subprocess.PIPE, stderr=subprocess.PIPE, cwd=core.TMP, timeout=60)
+        p = subprocess.run([cli, os.path.join(d, fn)], stdout=subprocess.PIPE, stderr=subprocess.PIPE, cwd=core.TMP, timeout=900)
         ctx.evaluations += 1
         ctx.count("inputs_file_cli")
         ctx.nontriv("cli:%s:%d" % (fn, p.returncode))
